@@ -258,6 +258,20 @@ func mutantsOf(rng *rand.Rand, idx int, orig *TxInfo, g *Gen, st *MState, chainI
 	// payload edits
 	switch orig.Tx.Type {
 	case rctypes.TRX_UNSTAKING:
+		add("payload:other-own-stake-same-validator", true, func(pm *rctypes.TrxProto) bool {
+			// only the stake reference changes: another stake of the same owner bonded to the same validator
+			if d := st.Delegatees[hx(pm.To)]; d != nil {
+				for _, s := range d.Stakes {
+					pl := &rctypes.TrxPayloadUnstaking{TxHash: addrBytes(s.TxHash)}
+					bz, _ := pl.Encode()
+					if s.Owner == hx(pm.From) && !bytes.Equal(bz, pm.XPayload) {
+						pm.XPayload = bz
+						return true
+					}
+				}
+			}
+			return false
+		})
 		add("payload:other-stake", true, func(pm *rctypes.TrxProto) bool {
 			for _, dk := range sortedKeys(st.Delegatees) {
 				for _, s := range st.Delegatees[dk].Stakes {
@@ -535,6 +549,7 @@ func (c *Ctx) mutationRun(i int, hr *HistRun, o *HistOpts, rng *rand.Rand) {
 			tname := typeName(txs[m.of].Tx.Type)
 			c.Count("mutants-delivered", 1)
 			c.Distinct(tname + "/" + strings.SplitN(m.label, ":", 2)[0] + ":" + m.label)
+			c.SetAdd("mutations", m.label)
 			c.Eval(1)
 			valid := independentVerify(m.raw, g.G.ChainID)
 			if r.Code == 0 {
